@@ -54,6 +54,7 @@ class Assembled:
         self.shape_checks = []
         self.proof_fns = 0
         self.canaries = []
+        self.notes = []
 
     def emit(self, text, origin):
         for ln in text.split("\n"):
@@ -463,11 +464,17 @@ def _emit_fn(out, spec, repo, canary):
 
     def need_loop(n):
         if n > len(loops):
-            raise Undecided("anchor lost: %s has %d loops, contract addresses loop %d" % (name, len(loops), n))
+            # the loop the contract addresses is gone (rewritten without a loop): its invariants and hints are scaffolding
+            # only — drop them and let the remaining obligations (postconditions, safety) decide
+            out.notes.append("%s: loop %d addressed by the contract is absent; its invariants/hints were skipped" % (name, n))
+            return None
         return loops[n - 1]
 
     for n, lp in spec["loops"].items():
-        kwpos, brace = need_loop(n)
+        got = need_loop(n)
+        if got is None:
+            continue
+        kwpos, brace = got
         edits.append((s.start(brace), 1, "\n/*@LOOP %d@*/\n" % n))
         if lp["opts"].get("binder") and s.txt(kwpos) == "for":
             q = kwpos
@@ -491,7 +498,11 @@ def _emit_fn(out, spec, repo, canary):
             off = line_off[k] if w == "before" else min(line_off[k + 1] - 1, len(body))
             edits.append((off, 2, mk))
         elif w in ("loop-start", "loop-end", "before-loop", "after-loop"):
-            kwpos, brace = need_loop(a["n"])
+            got = need_loop(a["n"])
+            if got is None:
+                hints.pop()
+                continue
+            kwpos, brace = got
             if w == "loop-start":
                 off = s.end(brace)
             elif w == "loop-end":
